@@ -25,13 +25,20 @@ _NAME_RE = re.compile(r"[_a-zA-Z][_a-zA-Z0-9]*")
 _INT_RE = re.compile(r"-?(0|[1-9][0-9]*)")
 
 
-def ast_node_from_value(value: Any, input_type: GraphQLType) -> _ast.Value:
+def ast_node_from_value(
+    value: Any, input_type: GraphQLType, *, numeric_strings: bool = True
+) -> _ast.Value:
     """
     Infer an input value ast Node from a Python value given an input type.
 
     Args:
         value: Any python value that can be transformed into a node
         input_type: Input type used to disambiguate between node types.
+        numeric_strings: Print the strings a custom scalar serializes to as
+            number literals when they spell a number (``"42"`` as ``42``).
+            This suits scalars which keep their values as text; with ``False``
+            every string is printed as a string literal, which reads back as
+            the same value whatever the scalar does with literals.
 
     Returns:
         Inferred value node
@@ -46,7 +53,9 @@ def ast_node_from_value(value: Any, input_type: GraphQLType) -> _ast.Value:
         raise TypeError('Expected input type but got "%r"' % input_type)
 
     if isinstance(input_type, NonNullType):
-        node = ast_node_from_value(value, input_type.type)
+        node = ast_node_from_value(
+            value, input_type.type, numeric_strings=numeric_strings
+        )
         if isinstance(node, _ast.NullValue):
             raise ValueError('Value of type "%s" cannot be null' % input_type)
         return node
@@ -58,14 +67,20 @@ def ast_node_from_value(value: Any, input_type: GraphQLType) -> _ast.Value:
         if is_iterable(value, strings=False):
             return _ast.ListValue(
                 values=[
-                    ast_node_from_value(entry, input_type.type)
+                    ast_node_from_value(
+                        entry, input_type.type, numeric_strings=numeric_strings
+                    )
                     for entry in value
                 ]
             )
-        return ast_node_from_value(value, input_type.type)
+        return ast_node_from_value(
+            value, input_type.type, numeric_strings=numeric_strings
+        )
 
     if isinstance(input_type, InputObjectType):
-        return _object_value_node_from_value(input_type, value)
+        return _object_value_node_from_value(
+            input_type, value, numeric_strings
+        )
 
     if isinstance(input_type, ScalarType):
         serialized = input_type.serialize(value)
@@ -80,7 +95,7 @@ def ast_node_from_value(value: Any, input_type: GraphQLType) -> _ast.Value:
         return _ast.NullValue()
 
     try:
-        return _scalar_node_from_value(input_type, serialized)
+        return _scalar_node_from_value(input_type, serialized, numeric_strings)
     except ValueError:
         pass
 
@@ -90,7 +105,7 @@ def ast_node_from_value(value: Any, input_type: GraphQLType) -> _ast.Value:
 
 
 def _object_value_node_from_value(
-    input_type: InputObjectType, value: Any
+    input_type: InputObjectType, value: Any, numeric_strings: bool = True
 ) -> _ast.ObjectValue:
     if not isinstance(value, dict):
         raise ValueError('Value of type "%s" must be a dict' % input_type)
@@ -105,7 +120,9 @@ def _object_value_node_from_value(
         if key not in value and field_def.name not in python_names:
             key = field_def.name
         if key in value:
-            field_value = ast_node_from_value(value[key], field_def.type)
+            field_value = ast_node_from_value(
+                value[key], field_def.type, numeric_strings=numeric_strings
+            )
             field_nodes.append(
                 _ast.ObjectField(
                     name=_ast.Name(value=field_def.name), value=field_value
@@ -121,7 +138,7 @@ def _object_value_node_from_value(
 
 
 def _scalar_node_from_value(
-    input_type: GraphQLType, scalar_value: Any
+    input_type: GraphQLType, scalar_value: Any, numeric_strings: bool = True
 ) -> _ast.Value:
     if isinstance(scalar_value, bool):
         return _ast.BooleanValue(value=scalar_value)
@@ -141,7 +158,8 @@ def _scalar_node_from_value(
         elif input_type is ID and _INT_RE.fullmatch(scalar_value):
             return _ast.IntValue(value=scalar_value)
         elif (
-            isinstance(input_type, ScalarType)
+            numeric_strings
+            and isinstance(input_type, ScalarType)
             and input_type not in SPECIFIED_SCALAR_TYPES
         ):
             if _INT_RE.fullmatch(scalar_value):
@@ -177,7 +195,9 @@ def _scalar_node_from_value(
                 fields=[
                     _ast.ObjectField(
                         name=_ast.Name(value=key),
-                        value=_custom_scalar_entry(input_type, entry),
+                        value=_custom_scalar_entry(
+                            input_type, entry, numeric_strings
+                        ),
                     )
                     for key, entry in scalar_value.items()
                 ]
@@ -185,7 +205,7 @@ def _scalar_node_from_value(
         elif isinstance(scalar_value, (list, tuple)):
             return _ast.ListValue(
                 values=[
-                    _custom_scalar_entry(input_type, entry)
+                    _custom_scalar_entry(input_type, entry, numeric_strings)
                     for entry in scalar_value
                 ]
             )
@@ -193,7 +213,9 @@ def _scalar_node_from_value(
     raise ValueError()
 
 
-def _custom_scalar_entry(input_type: GraphQLType, entry: Any) -> _ast.Value:
+def _custom_scalar_entry(
+    input_type: GraphQLType, entry: Any, numeric_strings: bool = True
+) -> _ast.Value:
     if entry is None:
         return _ast.NullValue()
-    return _scalar_node_from_value(input_type, entry)
+    return _scalar_node_from_value(input_type, entry, numeric_strings)
